@@ -10,6 +10,8 @@
 //!   off=<o0,o1,..>  initial counter value per thread
 //!   x=<r:t:e,...>   extra ticks added to the first call of round r (0-based) on thread t (`*` = every thread)
 //!   al=<allocations per call>  alm=<only where (round + thread) % alm == 0; 0 = everywhere>
+//!   ly=<5 digits: option layer (0 runner, 1 bench, 2 group, 3 outer group) holding n, s, min, max, skip>
+//!   dk=<field/layer/value,...>  other values of a field on layers further out (they must lose)
 //!   budget=<max calls of the benchmarked function over the whole case>  maxr=<max rounds>  (watchdog: the closure panics beyond)
 //!
 //! Output: `ok K=.. sizes=.. calls=.. rag=.. fs=.. dur=.. ai=.. cnt=.. ss=.. si=.. | vt=.. init=.. h=..`
@@ -193,7 +195,10 @@ fn join<T: ToString>(l: impl IntoIterator<Item = T>) -> String {
 
 fn run_case(line: &str) -> String {
     let mut is_test = false;
+    // The resolved values; they are distributed over option layers below.
     let mut options = divan::__private::BenchOptions::default();
+    let mut layer_of = [0usize; 5]; // n, s, min, max, skip
+    let mut decoys: Vec<(String, usize, String)> = Vec::new();
     let mut threads = 1usize;
     let mut freq = 1_000_000_000_000u64;
     let mut prec = 1u128;
@@ -210,6 +215,17 @@ fn run_case(line: &str) -> String {
             "min" => options.min_time = opt_dur(val),
             "max" => options.max_time = opt_dur(val),
             "skip" => options.skip_ext_time = if val == "-" { None } else { Some(val == "1") },
+            "ly" => {
+                for (i, ch) in val.chars().take(5).enumerate() {
+                    layer_of[i] = ch.to_digit(10).expect("layer") as usize % 4;
+                }
+            }
+            "dk" => {
+                for e in val.split(',').filter(|e| !e.is_empty()) {
+                    let p: Vec<&str> = e.splitn(3, '/').collect();
+                    decoys.push((p[0].to_string(), p[1].parse::<usize>().expect("decoy layer") % 4, p[2].to_string()));
+                }
+            }
             "f" => freq = val.parse().expect("f"),
             "p" => prec = val.parse().expect("p"),
             "oh" => {
@@ -248,6 +264,34 @@ fn run_case(line: &str) -> String {
             _ => panic!("unknown key {k}"),
         }
     }
+
+    // The effective options are built the way `run_tree` / `run_bench_entry` build
+    // them: four layers (0 = the runner's options, 1 = the benchmark's, 2 = its
+    // group's, 3 = the outer group's), each field of the case placed on the layer
+    // `ly` names (decoys: other values of the same field on layers further out,
+    // which must lose), merged through the real `BenchOptions::overwrite`,
+    // innermost group first, the runner last.
+    let resolved = options;
+    let mut layers: Vec<divan::__private::BenchOptions> = (0..4).map(|_| Default::default()).collect();
+    layers[layer_of[0]].sample_count = resolved.sample_count;
+    layers[layer_of[1]].sample_size = resolved.sample_size;
+    layers[layer_of[2]].min_time = resolved.min_time;
+    layers[layer_of[3]].max_time = resolved.max_time;
+    layers[layer_of[4]].skip_ext_time = resolved.skip_ext_time;
+    for (field, l, val) in &decoys {
+        let o = &mut layers[*l];
+        match field.as_str() {
+            "n" if o.sample_count.is_none() => o.sample_count = opt_u32(val),
+            "s" if o.sample_size.is_none() => o.sample_size = opt_u32(val),
+            "min" if o.min_time.is_none() => o.min_time = opt_dur(val),
+            "max" if o.max_time.is_none() => o.max_time = opt_dur(val),
+            "skip" if o.skip_ext_time.is_none() => o.skip_ext_time = Some(val == "1"),
+            _ => {}
+        }
+    }
+    let groups = v::options_overwrite(&layers[2], &layers[3]);
+    let entry = v::options_overwrite(&layers[1], &groups);
+    let options = v::options_overwrite(&layers[0], &entry);
 
     // Arm the environment.
     let off0 = sc.off.first().copied().unwrap_or(0);
@@ -407,12 +451,15 @@ fn run_case(line: &str) -> String {
 fn e2e_path(tag: &str) -> String {
     let rel = match tag {
         "g_4_2_t12" | "g_3_2_t234" => format!("grp::{tag}"),
+        "g_4_2_t13_min0" => format!("gmin0::{tag}"),
+        "g_3_2_t12_max0" | "g_3_2_t12_max100" => format!("gmax0::{tag}"),
         _ => tag.to_string(),
     };
     format!("hx_loop_e2e::{rel}")
 }
 
-/// Case: `bench=<tag> via=<cli|env|attr|attr+cli-n> mode=<b|t> n=<n|-> s=<s> threads=<a,b,..>` (the
+/// Case: `bench=<tag> via=<cli|env|attr|attr+cli-n|builder|builder+env-n|builder+env-s> mode=<b|t> n=<n|-> s=<s> threads=<a,b,..>
+/// [mx=0] [bn=<builder count overridden by the environment>] [bs=..]` (the
 /// effective values; `via` says where they are given).  Output: per thread
 /// count `t=T samples=.. iters=.. calls=<per thread index>` joined by `;`.
 fn run_e2e(line: &str) -> String {
@@ -428,7 +475,7 @@ fn run_e2e(line: &str) -> String {
     let exe = std::env::current_exe().expect("exe").with_file_name("hx-loop-e2e");
     let mut cmd = Command::new(exe);
     for (k, _) in std::env::vars() {
-        if k.starts_with("DIVAN_") || k == "NEXTEST" {
+        if k.starts_with("DIVAN_") || k == "NEXTEST" || k == "HX_BUILDER" {
             cmd.env_remove(k);
         }
     }
@@ -449,6 +496,22 @@ fn run_e2e(line: &str) -> String {
         }
         "attr+cli-n" => {
             cmd.arg("--sample-count").arg(get("n"));
+        }
+        // builder calls before `config_with_args()`; nothing on the command line
+        "builder" | "builder+env-n" | "builder+env-s" => {
+            let via = get("via");
+            let bn = if via == "builder+env-n" { get("bn") } else { get("n") };
+            let bs = if via == "builder+env-s" { get("bs") } else { get("s") };
+            let mut spec = format!("sample_size={bs};threads={}", get("threads"));
+            if bn != "-" {
+                spec.push_str(&format!(";sample_count={bn}"));
+            }
+            cmd.env("HX_BUILDER", spec);
+            if via == "builder+env-n" {
+                cmd.env("DIVAN_SAMPLE_COUNT", get("n"));
+            } else if via == "builder+env-s" {
+                cmd.env("DIVAN_SAMPLE_SIZE", get("s"));
+            }
         }
         _ => {}
     }
